@@ -26,8 +26,27 @@ Definition LO (m : Z) (l u : option Z) (la : bool) (f : option (fop * ffield)) (
 """
 
 
+class KeyUnfaithful(Exception):
+    def __init__(self, row, args):
+        super().__init__(row.get("what"))
+        self.row, self.args = row, args
+
+
+def unfaithful_violation(ctx, e):
+    ctx.violation({"kind": "identity-of-stored-values", "what": e.row.get("what"), "a": e.row.get("a"), "b": e.row.get("b"),
+                   "harness_args": [str(a) for a in e.args],
+                   "explain": "two values that differ in id, kind, instant or object value have the same UUID (or equal values "
+                              "different UUIDs): memory.go keys every index by these UUIDs, so the store holds one triple where "
+                              "the property demands two; found by the harness self-check on a generated universe"})
+
+
 def hstore(args, timeout=1800):
     rc, out = sh([os.path.join(BIN, "h_store")] + [str(a) for a in args], cwd=REPO, env=vcheck.goenv(), timeout=timeout)
+    if rc == 3:
+        # the harness found two values whose model keys and UUIDs disagree: the implementation identifies what the
+        # property distinguishes (or the reverse); the last line describes the pair
+        rows = [json.loads(l) for l in out.splitlines() if l.startswith("{")]
+        raise KeyUnfaithful([r for r in rows if r.get("kind") == "key_unfaithful"][-1], args)
     if rc != 0:
         raise vcheck.Broken("h_store failed", out[-3000:])
     return [json.loads(l) for l in out.splitlines() if l.startswith("{")]
